@@ -161,6 +161,15 @@ func c05DumpReplays(dir string) {
 		_ = os.WriteFile(filepath.Join(dir, "json-generatemap-nonstring-key-panic.json"), b, 0o644)
 	}
 	{
+		// F16: []*DefinedBool (repaired)
+		pc := c05One(c05Typ{K: "slice", E: &c05Typ{K: "bool", P: true, D: true}}, nil, c05Arr(c05Bool(false), c05Bool(true)))
+		raw, _ := json.Marshal(pc)
+		rf := kit.ReplayFile{Property: "C05", Rule: "json", Case: raw,
+			Message: "minimal input of finding fillslicevalue-ptr-defined-elem-panic (repaired): " + c05Describe(&pc)}
+		b, _ := json.MarshalIndent(rf, "", " ")
+		_ = os.WriteFile(filepath.Join(dir, "json-fillslicevalue-ptr-defined-elem-panic.json"), b, 0o644)
+	}
+	{
 		nd := c05NestedDefaultCase()
 		raw, _ := json.Marshal(nd)
 		rf := kit.ReplayFile{Property: "C05", Rule: "json", Case: raw,
